@@ -24,7 +24,8 @@ RULE = ("R-score notes, containers, bars and tracks played through play_Note/Not
         "recording SequencerObserver give the trace; cumulative sleep is mapped back to musical time through the model's tempo "
         "segments and the timed on/off multiset, per-(pitch, channel) balance, on-order (sequential API), total sleep, instrument "
         "announcements, observer trace and return value are compared with the model. Non-trivial: a case with a chord and a rest, "
-        "a tempo change, or >= 2 parallel parts; a refused control change.")
+        "a tempo change, or >= 2 parallel parts; a refused control change."
+        ' Also: pitches up to 135 (octaves 0-10), tempo marks on empty containers, twin bars, and a second pass of the same music on the same sequencer must emit the same events.')
 ASSUMPTIONS = ["in parallel playback tempo-carrying containers are generated in the first part only (two simultaneous tempo changes "
                "have no stated winner)", "parallel parts have the same number of bars, the same meter per bar index and >= 1 entry per bar",
                "MidiInstrument cases have instrument_nr == names.index(name) (unknown name: instrument_nr 1), so 'the MIDI instrument's "
